@@ -133,6 +133,69 @@ def oracle_moment_formula(ctx, c, im):
     ctx.case_done(("formula", c.cid), True)
 
 
+def oracle_weights(ctx, c, im):
+    """the weight vector is the composite rule of the theorems: sum = delta0*(n-1) for odd n, delta0*(n-1) - delta0/3
+    for even n (simpson_weights_sum); for odd n it integrates 1, q, q^2, q^3 exactly over the axis (simpson_exact_deg3)"""
+    n = c.n
+    ws = im["geo.ws"]
+    d = Fraction(c.geo.d0)
+    exp = d * (n - 1) if n % 2 else d * (n - 1) - d / 3
+    tol = 2 * (n + 3) * U * abs(exp)
+    if any(isinstance(w, str) for w in ws) or abs(sum(ws) - exp) > tol:
+        ctx.violation("impl-oracle", "the integration weights do not sum to the length the composite rule covers",
+                      case=c.replay(), observed=dict(weights=[str(w) for w in ws[:6]], sum=str(sum(ws))),
+                      expected=dict(sum=str(exp), tol=str(tol)), sig=sig(c, "weights-sum", odd=bool(n % 2)))
+        return
+    if n % 2:
+        q = [Fraction(v) for v in c.geo.q]
+        a, b = q[0], q[0] + (n - 1) * d          # the axis as the model sees it: min + i*delta
+        for k in range(4):
+            got = sum(ws[i] * (a + i * d) ** k for i in range(n))
+            ex = (b ** (k + 1) - a ** (k + 1)) / (k + 1)
+            cond = sum(abs(ws[i]) * abs(a + i * d) ** k for i in range(n))
+            if abs(got - ex) > 2 * (n + 3) * U * cond:
+                ctx.violation("impl-oracle", "the integration weights (odd n) do not integrate q^%d exactly" % k,
+                              case=c.replay(), observed=str(got), expected=str(ex), sig=sig(c, "weights-deg3", degree=k))
+                return
+    ctx.count("oracle:weights")
+
+
+def oracle_projections(ctx, c, im):
+    """with up-to-date caches the projections and the bunch charge are the weighted sums of the bunch's own cells
+    (the implementation's own data and weights), and both projections integrate to the same charge"""
+    hf = history_facts(c.ops)
+    n, nb = c.n, c.nb
+    ws = im["geo.ws"]
+    for st, ok in (("s", (hf["px_fresh"], hf["py_fresh"], hf["fill_fresh"])), ("c", (True, True, True))):
+        data = im[st + ".data"]
+        if any(isinstance(v, str) for v in data):
+            return
+        for b in range(nb):
+            D = data[b * n * n:(b + 1) * n * n]
+            px = [sum(D[x * n + y] * ws[y] for y in range(n)) for x in range(n)]
+            py = [sum(D[x * n + y] * ws[x] for x in range(n)) for y in range(n)]
+            apx = [sum(abs(D[x * n + y]) * ws[y] for y in range(n)) for x in range(n)]
+            apy = [sum(abs(D[x * n + y]) * ws[x] for x in range(n)) for y in range(n)]
+            checks = []
+            if ok[0]:
+                checks.append(("px", im[st + ".px"][b * n:(b + 1) * n], px, apx))
+            if ok[1]:
+                checks.append(("py", im[st + ".py"][b * n:(b + 1) * n], py, apy))
+            if ok[2] and ok[0]:
+                checks.append(("fill", [im[st + ".fill"][b]], [sum(px[x] * ws[x] for x in range(n))],
+                               [sum(apx[x] * ws[x] for x in range(n))]))
+            for tag, got, exp, cond in checks:
+                k = 2 * (n + 2) * (2 if tag == "fill" else 1)
+                for i in range(len(exp)):
+                    if isinstance(got[i], str) or abs(got[i] - exp[i]) > k * U * cond[i]:
+                        ctx.violation("impl-oracle", "%s of bunch %d is not the weighted sum of the bunch's own cells" % (tag, b),
+                                      case=c.replay(), observed=dict(state=st, quantity=tag, index=i, got=str(got[i])),
+                                      expected=dict(value=str(exp[i]), tol=str(k * U * cond[i])),
+                                      sig=sig(c, "projection", quantity=tag))
+                        return
+    ctx.count("oracle:projections")
+
+
 def _eq(ctx, c, im, a, b, tags, what, clause, **kw):
     for tag in tags:
         x, y = im["%s.%s" % (a, tag)], im["%s.%s" % (b, tag)]
@@ -306,6 +369,8 @@ def evaluate(ctx, cases, res, dis):
         if c.geo.d0 != c.geo.d1:
             ctx.count("moments:unequal-spacing")
         im = r["impl"]
+        oracle_weights(ctx, c, im)
+        oracle_projections(ctx, c, im)
         oracle_share(ctx, c, im)
         if c.kind != "signed":
             oracle_moment_formula(ctx, c, im)
